@@ -271,3 +271,42 @@ theorem scale_overshoot {r f x : Rat} (hrf : 1 < r * f) (hx : x < 0) : r * (x * 
   grind
 
 end Asynkit
+
+namespace Asynkit
+variable {H : HeapLib (Entry PV)}
+
+/-- `append_pri` with any boost factor: some reference list is still refined -/
+theorem PosPQ.RP.appendPri_any (hl : H.Lawful (Entry.lt PV.lt)) {s : PosPQ} {L} (h : PosPQ.RP s L)
+    (x : Nat) (p : Rat) (draw : Nat → Rat) : ∃ L', PosPQ.RP (s.appendPri H x p draw) L' := by
+  have hR := h.r.add hl ({ base := p, insertedAt := s.nIns } : PV) x
+  have h1 : PosPQ.RP { s with q := s.q.add H PV.lt { base := p, insertedAt := s.nIns } x }
+      (L ++ [⟨{ base := p, insertedAt := s.nIns }, s.q.seq, x⟩]) := by
+    refine ⟨hR, ?_⟩
+    intro y hy hc
+    rcases List.mem_append.mp hy with hy | hy
+    · exact h.cls0 y hy hc
+    · simp at hy; subst hy; rfl
+  obtain ⟨L', hr, _⟩ := h1.updateCounters hl true draw
+  exact ⟨L', hr⟩
+
+/-- `insert` with any boost factor: some reference list is still refined -/
+theorem PosPQ.RP.insert_any (hl : H.Lawful (Entry.lt PV.lt)) {s : PosPQ} {L} (h : PosPQ.RP s L)
+    (p x : Nat) (draw : Nat → Rat) : ∃ L', PosPQ.RP (s.insert H p x draw) L' := by
+  obtain ⟨es, L1, s1, hpr, _, hr1, _, _, _, _⟩ := h.promote hl draw p []
+  simp only [List.nil_append] at hpr
+  unfold PosPQ.insert
+  simp only [hpr]
+  generalize hpv : PosPQ.insertPV s1 ((es.map (·.obj)).length == p) = pv
+  have hcls : pv.cls = 0 ∧ pv.boost = 0 := by subst hpv; exact ⟨rfl, rfl⟩
+  have hR := addAll_R hl pv (es.map (·.obj) ++ [x]) hr1.r
+  have h1 : PosPQ.RP { s1 with q := PosPQ.addAll H pv s1.q (es.map (·.obj) ++ [x]) }
+      (L1 ++ stamped pv s1.q.seq (es.map (·.obj) ++ [x])) := by
+    refine ⟨hR, ?_⟩
+    intro e he hc
+    rcases List.mem_append.mp he with he | he
+    · exact hr1.cls0 e he hc
+    · rw [(stamped_bounds pv _ _ e he).1]; exact hcls.2
+  obtain ⟨L', hr, _⟩ := h1.updateCounters hl true draw
+  exact ⟨L', hr⟩
+
+end Asynkit
